@@ -143,13 +143,18 @@ Definition segments (cfg : config) (q : request) (st : store) : seg_res :=
   end.
 
 (** ---------------------------------------------------------------- histories *)
-Inductive op := OReg (r : registration) | OReq (q : request).
-Inductive out := OutReg (r : reg_res) | OutReq (r : seg_res).
+(** [OPub]: the control service's path DB is shared with the public segment
+    registration, which inserts a (public) down segment under group id 0
+    (pathdb Insert = InsertWithHPGroupIDs [0]) *)
+Definition public_gid : N := 0.
+Inductive op := OReg (r : registration) | OReq (q : request) | OPub (sg : segm).
+Inductive out := OutReg (r : reg_res) | OutReq (r : seg_res) | OutPub.
 
 Definition step (cfg : config) (st : store) (o : op) : store * out :=
   match o with
   | OReg r => let (res, st') := register cfg r st in (st', OutReg res)
   | OReq q => (st, OutReq (segments cfg q st))
+  | OPub sg => (put1 strict st public_gid sg, OutPub)
   end.
 
 Definition exec (cfg : config) (st : store) (ops : list op) : store :=
@@ -185,7 +190,8 @@ Definition serve_okb (cfg : config) (q : request) : bool :=
 Definition puts_of (cfg : config) (ops : list op) : list (N * segm) :=
   flat_map (fun o => match o with
                      | OReg r => if reg_okb cfg r then map (fun sg => (r_gid r, sg)) (r_segs r) else []
-                     | OReq _ => [] end) ops.
+                     | OReq _ => []
+                     | OPub sg => [(public_gid, sg)] end) ops.
 
 Definition vers (s : N) (ps : list (N * segm)) : list Z :=
   map (fun p => s_ver (snd p)) (filter (fun p => s_id (snd p) =? s) ps).
@@ -210,6 +216,7 @@ Definition obs_of (o : out) : obs :=
   match o with
   | OutReg ROk => ObsReg 0 | OutReg (RErr _) => ObsReg 1
   | OutReq (SOk l) => ObsReq true l | OutReq (SErr _) => ObsReq false []
+  | OutPub => ObsReg 0
   end.
 
 Definition obs_eqb (a b : obs) : bool :=
@@ -225,6 +232,7 @@ Definition obs_eqb (a b : obs) : bool :=
 Definition op_ok (cfg : config) (ps : list (N * segm)) (o : op) (b : obs) : bool :=
   match o, b with
   | OReg r, ObsReg c => Bool.eqb (c =? 0) (reg_okb cfg r)
+  | OPub _, ObsReg c => c =? 0
   | OReq q, ObsReq ok l =>
     Bool.eqb ok (serve_okb cfg q)
     && (negb ok || (incl_b l (spec_answer q ps) && incl_b (spec_answer q ps) l && nodup_keys l))
@@ -296,9 +304,11 @@ Definition stored_under (st : store) (s g : N) : Prop :=
   exists v gs, find s st = Some (v, gs) /\ In g gs.
 
 (** some registration of the history that satisfies the property's conditions
-    registered segment [sg] under group [g] *)
+    registered segment [sg] under group [g], or [g] is the public group id 0 and
+    the segment was inserted as a public segment *)
 Definition registered (cfg : config) (ops : list op) (g : N) (sg : segm) : Prop :=
-  exists r, In (OReg r) ops /\ reg_allowed cfg r /\ r_gid r = g /\ In sg (r_segs r).
+  (exists r, In (OReg r) ops /\ reg_allowed cfg r /\ r_gid r = g /\ In sg (r_segs r))
+  \/ (g = public_gid /\ In (OPub sg) ops).
 
 (** [v] is the newest version of segment [s] registered in the history *)
 Definition newest (cfg : config) (ops : list op) (s : N) (v : Z) : Prop :=
